@@ -1,6 +1,7 @@
 (* C11  Pause state is tracked per party (FSM level).  Statements only. *)
 From Coq Require Import List NArith ZArith String Bool.
 From DT Require Import GenStatus GenEvent FsmTypes GenFsm Fsm FsmFacts C11Proofs.
+From DT Require Transport C16Proofs.
 Import ListNotations.
 
 Theorem C11_pause_flags_independent :
@@ -48,3 +49,15 @@ Theorem C11_resume_valid_while_transferring :
        valid_in ResumeResponder s = true /\ valid_in PauseResponder s = true /\ valid_in PauseInitiator s = true).
 Proof. exact resume_valid_while_transferring. Qed.
 Print Assumptions C11_resume_valid_while_transferring.
+
+(* at the graphsync adaptor: when the counterparty's message arrives on a graphsync response and
+   the manager answers nil or "the local side is still paused" (ErrPause), the request is left
+   alone -- it stays paused by the local pause and is never terminated (fix #7) *)
+Theorem C11_stay_paused_does_not_terminate :
+  forall s p rid m a rest k,
+    Transport.rlookup rid (Transport.ts_reqmap s) = Some k ->
+    Transport.ha_ret a <> Transport.HErr ->
+    (let '(_, _, _, used) := Transport.process_extension s k p m a in used = true) ->
+    C16Proofs.terminates (snd (Transport.tstep s (Transport.GIncomingResponse p rid (Some m) None) (a :: rest))) = false.
+Proof. exact C16Proofs.stay_paused_does_not_terminate. Qed.
+Print Assumptions C11_stay_paused_does_not_terminate.
